@@ -17,8 +17,8 @@ def members(schema, ty):
     return [f for f in schema["types"][ty] if f["card"] == "oneof"]
 
 
-def observe(schema, m, ty, R=None, C=None):
-    o = {"val": gen.fresh(schema, ty), "wire": [], "raises": {"_": False}, "dictkeys": [], "err": "", "refval": None, "len": -1, "dump": [], "delim": [], "reread": [], "reread_res": "skipped", "isset": {"_": False}}
+def observe(schema, m, ty, R=None, C=None, dictback=False):
+    o = {"val": gen.fresh(schema, ty), "wire": [], "raises": {"_": False}, "dictkeys": [], "err": "", "refval": None, "len": -1, "dump": [], "delim": [], "reread": [], "reread_res": "skipped", "isset": {"_": False}, "dictback": [], "dictback_res": "skipped"}
     try:
         o["val"] = dyn.obs_bp(schema, m, ty)
         o["len"] = len(m)                   # (before bytes(): a size computed / cached earlier must still be right)
@@ -29,7 +29,14 @@ def observe(schema, m, ty, R=None, C=None):
         s = io.BytesIO()
         m.dump(s, betterproto.SIZE_DELIMITED)
         o["delim"] = list(s.getvalue())
-        if C is not None:            # C10 along the history: the frame written now, twice, is read back by two loads that consume exactly the stream
+        if C is not None and dictback:  # C04 along the history: the dict / JSON text written now is read back as the current value
+            try:
+                o["dictback"] = [dyn.obs_bp(schema, C[ty]().from_dict(m.to_dict()), ty), dyn.obs_bp(schema, C[ty].from_dict(m.to_dict(casing=betterproto.Casing.SNAKE)), ty),
+                                 dyn.obs_bp(schema, C[ty]().from_json(m.to_json()), ty)]
+                o["dictback_res"] = "ok"
+            except Exception as ex:
+                o["dictback_res"] = "raises_" + type(ex).__name__
+        if C is not None and not dictback:            # C10 along the history: the frame written now, twice, is read back by two loads that consume exactly the stream
             rs = io.BytesIO(bytes(o["delim"]) * 2)
             try:
                 r1 = C[ty]().load(rs, betterproto.SIZE_DELIMITED)
@@ -251,7 +258,7 @@ def kw_to_dict(schema, C, ty, kw):
     return m.to_dict(casing=betterproto.Casing.SNAKE)
 
 
-def run_history(schema, C, ty, ops, R=None, reread=False):
+def run_history(schema, C, ty, ops, R=None, reread=False, dictback=False):
     log = []
     m = None
     byname = {f["name"]: f for f in schema["types"][ty]}
@@ -335,7 +342,7 @@ def run_history(schema, C, ty, ops, R=None, reread=False):
             e["res"] = "AttributeError"
         except Exception as ex:
             e["res"] = type(ex).__name__ + ":" + str(ex)[:60]
-        e["obs"] = observe(schema, m, ty, R, C if reread else None)
+        e["obs"] = observe(schema, m, ty, R, C if (reread or dictback) else None, dictback)
         log.append(e)
         if e["res"] not in ("ok", "AttributeError"):
             break
@@ -349,25 +356,26 @@ def _in_dict(d, name):
 def history_event(args):
     from . import msgev
     ty, ops, withref = args[:3]
-    reread = len(args) > 3 and args[3]
+    reread = len(args) > 3 and args[3] is True
+    dictback = len(args) > 3 and args[3] == "dictback"
     w = msgev.world()
-    return {"ty": ty, "log": run_history(w["schema"], w["bp"], ty, ops, msgev.ref_classes() if withref else None, reread), "case": {"ty": ty, "ops": ops}}
+    return {"ty": ty, "log": run_history(w["schema"], w["bp"], ty, ops, msgev.ref_classes() if withref else None, reread, dictback), "case": {"ty": ty, "ops": ops}}
 
 
-def run_histories(ctx, types, count, length, emphasis, withref=False, extra=(), judge_len=False):
+def run_histories(ctx, types, count, length, emphasis, withref=False, extra=(), judge_len=False, judge_dict=False):
     from . import msgev
     w = msgev.world()
     rnd = ctx.rnd
     cases = []
     for _ in range(count):
         ty = rnd.choice(types)
-        cases.append((ty, gen_history(w["schema"], ty, rnd, rnd.randint(2, length), emphasis), withref, bool(judge_len)))
-    cases += [(ty, ops, withref, bool(judge_len)) for ty, ops in extra]
+        cases.append((ty, gen_history(w["schema"], ty, rnd, rnd.randint(2, length), emphasis), withref, "dictback" if judge_dict else bool(judge_len)))
+    cases += [(ty, ops, withref, "dictback" if judge_dict else bool(judge_len)) for ty, ops in extra]
     events = ctx.pmap(history_event, cases)
     for c in cases:
         ctx.count_case((c[0], repr(c[1])), len(c[1]) > 1)
     ctx.sample({"type": cases[0][0], "ops": cases[0][1][:6]})
-    ctx.validate("Trace_Msg", events, header={"schema": w["schema"], "judge_len": bool(judge_len)}, shard=300, weight=lambda e: len(e["log"]))
+    ctx.validate("Trace_Msg", events, header={"schema": w["schema"], "judge_len": bool(judge_len), "judge_dict": bool(judge_dict)}, shard=300, weight=lambda e: len(e["log"]))
     ctx.notes.setdefault("history_steps", 0)
     ctx.notes["history_steps"] += sum(len(e["log"]) for e in events)
     return events
